@@ -37,7 +37,7 @@ PROPERTY = "C04"
 LEVEL = "exploration"
 ENGINE = "sansio"
 TECHNIQUE = "bounded exhaustive interleaving enumeration + random schedules; log replay against an independent sequential specification"
-BUDGET = {"quick": (1500, 13), "thorough": (400_000, 150)}
+BUDGET = {"quick": (2500, 13), "thorough": (400_000, 150)}
 WORKERS = {"quick": 4, "thorough": 16}
 REQUIRED = ["exactly_once", "arrival_order", "no_reentry", "own_completion", "sibling_not_blocked", "trace_equals_spec", "nextlayer_replay_order", "tunnel_queue_order"]
 RULE = (
@@ -408,7 +408,7 @@ class Invalid(Exception):
         self.pos = pos
 
 
-def run_one(ctx, topo, famname, script, params, word, mech_hint=None):
+def run_one(ctx, topo, famname, script, params, word, picker=None):
     """Execute the interleaving `word` on the real layers and on the specification, then judge.
     Raises Invalid(pos) if a symbol is not enabled at position pos (nothing is judged then)."""
     real = Real(topo, script, params.get("decide_at", 0), params.get("hlen", 1), params.get("open_err"))
@@ -426,7 +426,14 @@ def run_one(ctx, topo, famname, script, params, word, mech_hint=None):
             diverged = pos
 
     sync(-1)
-    for pos, sym in enumerate(word):
+    length = len(word) if picker is None else word
+    word = word if picker is None else ""
+    for pos in range(length):
+        if picker is None:
+            sym = word[pos]
+        else:  # random schedules are drawn against the live state (always enabled symbols)
+            sym = picker(len(real.outstanding), bool(real.server.state & connection.ConnectionState.CAN_READ))
+            word += sym
         if sym == "a":
             na += 1
             uid = f"A{na}"
@@ -471,6 +478,7 @@ def run_one(ctx, topo, famname, script, params, word, mech_hint=None):
         guard += 1
         spec.complete(spec.outstanding[0])
     judge(ctx, topo, famname, params, word, real, spec, fed, completed, diverged)
+    real.word = word
     return real, spec
 
 
@@ -653,6 +661,8 @@ def run(ctx):
             cfg_i, prefix, length = items[k]
             n, ok = enumerate_prefix(ctx, cfg_i, prefix, length)
             complete = complete and ok
+            if not ok:
+                ctx.count("enumeration_chunks_cut_by_time_budget")
             ctx.count("enumerated_interleavings", n)
             continue
         # ---- random longer interleavings with random scripts
@@ -667,27 +677,15 @@ def run(ctx):
         famname = "rnd-noparent" if noparent else "rnd"
         L = r.choice([8, 12, 20, 30, 40])
         pc = r.choice([0.25, 0.4, 0.55])
-        # the word is generated against the live state: run incrementally by regenerating prefixes is wasteful, so
-        # draw symbols and let run_one reject disabled ones by retrying with the symbol replaced
-        word = []
-        for _ in range(L):
+
+        def picker(n_out, server_open, r=r, pc=pc):
             x = r.random()
-            word.append(str(r.randrange(4)) if x < pc else ("a" if x < pc + (1 - pc) * 0.55 else "b"))
-        for _ in range(L + 2):
-            try:
-                real, spec = run_one(ctx, topo, famname, script, params, "".join(word))
-                break
-            except Invalid as e:
-                sym = word[e.pos]
-                if sym == "b":
-                    word[e.pos] = "a"
-                elif sym == "0":
-                    word[e.pos] = r.choice("aab")
-                else:
-                    word[e.pos] = str(int(sym) - 1)
-        else:
-            ctx.count("random_word_not_enabled")
-            continue
+            if n_out and x < pc:
+                return str(r.randrange(min(n_out, 10)))
+            return "b" if server_open and r.random() < 0.45 else "a"
+
+        real, spec = run_one(ctx, topo, famname, script, params, L, picker)
+        word = real.word
         ctx.count("random_interleavings")
         kinds = "".join(sorted({k[-1] for _, k in real.emitted if k[-1] in "HOTws"}))
         sig = (topo, famname, L, min(spec.maxq, 5), kinds, tuple(sorted(params.items(), key=str)) if topo != "single" and topo != "router" else (), min(len(real.log) // 10, 8))
